@@ -611,7 +611,7 @@ fn note_known_example(case: &Case, upto: usize) {
 }
 
 /// Execute one case with all checks. Ok(outcome) also when only listed known findings were seen.
-pub fn run_case(env: &Env, case: &Case, st: &mut Stats, ct: &mut Ctr) -> Result<Outcome, String> {
+pub fn run_case(env: &Env, case: &Case, st: &mut Stats, ct: &mut Ctr, sample: bool) -> Result<Outcome, String> {
     let mut m = Machine::new(case.limit);
     let mut out = Outcome::default();
     let mut known_seen = false;
@@ -690,10 +690,12 @@ pub fn run_case(env: &Env, case: &Case, st: &mut Stats, ct: &mut Ctr) -> Result<
     if out.reallocs > 0 {
         ct.add(K::SeqRealloc);
     }
-    if is_nontrivial(&out) {
-        st.nt_sample(|| serde_json::to_value(case).unwrap());
-    } else {
-        st.sample(|| serde_json::to_value(case).unwrap());
+    if sample {
+        if is_nontrivial(&out) {
+            st.nt_sample(|| serde_json::to_value(case).unwrap());
+        } else {
+            st.sample(|| serde_json::to_value(case).unwrap());
+        }
     }
     let _ = known_seen;
     Ok(out)
@@ -771,6 +773,7 @@ struct Dfs<'a> {
     ct: &'a mut Ctr,
     viols: &'a mut Vec<Violation>,
     nt_recorded: usize,
+    seen: u64,
 }
 
 impl<'a> Dfs<'a> {
@@ -783,7 +786,10 @@ impl<'a> Dfs<'a> {
                 probe_every,
                 ops: ops.to_vec(),
             };
-            match run_case(self.env, &case, self.st, self.ct) {
+            // samples for the evidence file: a thin, spread-out selection
+            self.seen += 1;
+            let sample = !probe_every && self.seen % 8191 == 1;
+            match run_case(self.env, &case, self.st, self.ct, sample) {
                 Ok(o) => {
                     if !probe_every {
                         self.ct.add(K::ExhSeq);
@@ -853,6 +859,7 @@ fn prefixes_inner(env: &Env, cfg: &Cfg, st: &mut Stats, ct: &mut Ctr, viols: &mu
         ct,
         viols,
         nt_recorded: 0,
+        seen: 0,
     };
     let live0 = match d.eval(&[]) {
         Some(l) => l,
@@ -899,6 +906,7 @@ fn exhaustive(cx: &Cx, rep: &mut Report) {
                     ct: &mut ct,
                     viols: &mut viols,
                     nt_recorded: 0,
+                    seen: 0,
                 };
                 let mut idx = i;
                 while idx < items.len() {
@@ -981,7 +989,7 @@ fn case_strategy() -> BoxedStrategy<Case> {
 
 fn check_random(env: &Env, case: &Case, st: &mut Stats) -> CaseResult {
     let mut ct = Ctr::new();
-    let o = run_case(env, case, st, &mut ct)?;
+    let o = run_case(env, case, st, &mut ct, true)?;
     ct.flush(st);
     if is_nontrivial(&o) {
         st.nontrivial(&(case.limit, &case.ops));
@@ -1016,8 +1024,24 @@ pub struct RoundSpec {
 fn round_strategy(t: usize) -> BoxedStrategy<RoundSpec> {
     let total = t * BURST;
     (
-        prop_oneof![2 => 1usize..=4, 3 => 1usize..t.max(2), 3 => 1usize..total],
-        prop::collection::vec((0usize..3, prop_oneof![4 => Just(0u8), 2 => Just(1u8), 1 => Just(2u8), 1 => Just(3u8)]), t),
+        // limit/m per request: m < t*BURST so that the requests of one round cannot all fit;
+        // m in [t*BURST, 2*t*BURST]: the allocs fit, growing the blocks (kind 2) does not
+        prop_oneof![2 => 1usize..=4, 3 => 1usize..t.max(2), 3 => 1usize..total, 2 => total..=2 * total],
+        // per thread: size variant and kind; every fourth round all threads grow their blocks
+        (
+            prop::collection::vec(
+                (0usize..3, prop_oneof![4 => Just(0u8), 2 => Just(1u8), 2 => Just(2u8), 1 => Just(3u8)]),
+                t,
+            ),
+            prop::bool::weighted(0.25),
+        )
+            .prop_map(|(per, all_grow)| {
+                if all_grow {
+                    per.into_iter().map(|(j, _)| (j, 2u8)).collect::<Vec<_>>()
+                } else {
+                    per
+                }
+            }),
         prop::bool::weighted(0.6),
     )
         .prop_map(|(m, per, hold)| RoundSpec {
@@ -1166,7 +1190,8 @@ fn worker(sh: &Shared, me: usize) -> ThreadTotals {
         let (s, kind) = (spec.sizes[me], spec.kinds[me]);
         let l = Layout::from_size_align(s, ALIGN).unwrap();
         let (mut ok, mut no) = (0u64, 0u64);
-        if !sh.bar.wait() {
+        // the barrier at the end of the previous round releases all threads into this burst together
+        if r == 0 && !sh.bar.wait() {
             break;
         }
         // ---- burst
@@ -1320,7 +1345,7 @@ fn worker(sh: &Shared, me: usize) -> ThreadTotals {
         if !sh.bar.wait() {
             break;
         }
-        // ---- free
+        // ---- free (every thread has freed its blocks before it reaches the next quiescent point)
         for (p, size) in mine.drain(..) {
             release(sh, p, size);
         }
@@ -1499,6 +1524,9 @@ pub fn run(cx: &Cx) -> Report {
     exhaustive(cx, &mut rep);
     rep.exhaustive = false; // exhaustive only up to the stated depth and alphabet
     rep.mark(cx, "exhaustive");
+    // leave room in the evidence samples for the other phases
+    rep.stats.nontrivial_samples.truncate(5);
+    rep.stats.samples.truncate(2);
 
     let cases = cx.tier.pick(40_000u64, 2_000_000);
     let known = cx.known.clone();
@@ -1512,6 +1540,7 @@ pub fn run(cx: &Cx) -> Report {
         |case| serde_json::to_value(case).unwrap(),
     ));
     rep.mark(cx, "random");
+    rep.stats.nontrivial_samples.truncate(9);
 
     threads_phase(cx, &mut rep);
     rep.mark(cx, "threads");
@@ -1569,7 +1598,7 @@ pub fn replay(cx: &Cx, phase: &str, case: &J, st: &mut Stats) -> CaseResult {
     let c: Case = serde_json::from_value(case.clone()).map_err(|e| format!("bad case: {}", e))?;
     let env = Env { known: cx.known.clone() };
     let mut ct = Ctr::new();
-    let r = run_case(&env, &c, st, &mut ct).map(|_| ());
+    let r = run_case(&env, &c, st, &mut ct, false).map(|_| ());
     ct.flush(st);
     r
 }
